@@ -140,7 +140,7 @@ pub fn c11(tier: Tier) -> PropSpec {
         exhaustive: false,
         parts: vec![Part::new(
             "histories",
-            tier.pick(1500, 20000),
+            tier.pick(15000, 150000),
             || {
                 (sem_case(1, 6), 0u8..4, proptest::collection::vec(calls::call_strategy(true), 1..12))
                     .prop_map(|(sem, backend, calls)| HistCase { sem, backend, calls })
@@ -331,7 +331,7 @@ pub fn c14(tier: Tier) -> PropSpec {
         exhaustive: false,
         parts: vec![Part::new(
             "roundtrip",
-            tier.pick(1500, 20000),
+            tier.pick(12000, 120000),
             || {
                 (
                     sem_case(1, 6),
@@ -347,7 +347,7 @@ pub fn c14(tier: Tier) -> PropSpec {
         ),
         Part::with_shrink(
             "cli-export",
-            tier.pick(60, 800),
+            tier.pick(150, 1500),
             300,
             crate::props::cli::cli_export_strategy,
             crate::props::cli::cli_export_check,
